@@ -64,9 +64,10 @@ def main():
     pid = args.pid
     seed = int(os.environ.get("VERIF_SEED", "0") or 0)
     t0 = time.time()
-    replay_dir = os.path.join(ROOT, "replays")
+    replay_dir = os.environ.get("VERIF_REPLAY_DIR") or os.path.join(ROOT, "replays")
+    evidence_dir = os.environ.get("VERIF_EVIDENCE_DIR") or os.path.join(ROOT, "evidence")
     os.makedirs(replay_dir, exist_ok=True)
-    os.makedirs(os.path.join(ROOT, "evidence"), exist_ok=True)
+    os.makedirs(evidence_dir, exist_ok=True)
 
     if args.replay:
         env = dict(os.environ)
@@ -139,7 +140,7 @@ def main():
         level_out = level
     ev = {"property_id": pid, "tier": args.tier, "seed": seed, "level": level_out, "coverage": cov,
           "assumptions": sorted(set(assumptions)), "wall_s": round(wall, 2), "violations": len(violations)}
-    with open(os.path.join(ROOT, "evidence", pid + ".json"), "w") as f:
+    with open(os.path.join(evidence_dir, pid + ".json"), "w") as f:
         json.dump(ev, f, indent=1, default=str)
 
     for kf, what in known_hits:
